@@ -20,6 +20,7 @@ import (
 
 	"verifharness/cluster"
 	"verifharness/common"
+	"verifharness/fuzz"
 	"verifharness/simnet"
 )
 
@@ -572,4 +573,123 @@ func unitC20eddsa(e common.Env, p *common.Part) {
 			p.Sample(map[string]interface{}{"mode_silent": silent, "repetition": r, "dispatcher_goroutines": links})
 		}
 	}
+}
+
+// ---- C10 (adapter part): mutated tss-lib messages and stored data ----
+
+func guardedB(f func()) (msg string) {
+	defer func() {
+		if x := recover(); x != nil {
+			msg = fmt.Sprint(x)
+		}
+	}()
+	f()
+	return ""
+}
+
+func unitC10binance(e common.Env, p *common.Part) {
+	p.Rule = "messages captured from complete EdDSA (thorough: also ECDSA) key-generation and signing runs of this build and the stored key material, mutated (prefixes, extensions, header bytes, bit flips) and fed to ClassifyMsg+OnMsg of a live party (sources restricted to session members, as the orchestrator's filter guarantees) and to SetShareData; oracle: no panic, the live KeyGen returns when its context ends; distinct key = (adapter, entry point, input hash)"
+	kinds := []string{"eddsa"}
+	if e.Thorough() {
+		kinds = append(kinds, "ecdsa")
+	}
+	for ki, kind := range kinds {
+		if !e.Mine(ki) {
+			continue
+		}
+		rng := e.Rng("c10b", kind)
+		ids := []uint16{1, 2, 3}
+		w := newWiring(kind, ids, 1)
+		p.Begin(kind + " corpus")
+		shares, _, ok := keygenAndCheck(w, p, kind+" corpus run")
+		if !ok {
+			continue
+		}
+		signers := []uint16{1, 3}
+		d := sha256.Sum256([]byte("c10"))
+		signAndCheck(w, p, kind+" corpus signing", shares, nil2tpk(w, shares), signers, sameDigest(signers, d[:]), true, 60*time.Second)
+		seen := map[string]bool{}
+		var corpus []emitted
+		for _, em := range w.emittedLog() {
+			r, bc, _ := newAdapter(kind, 1).ClassifyMsg(em.Data)
+			k := fmt.Sprintf("%s/%d/%v", em.Phase, r, bc)
+			if !seen[k] {
+				seen[k] = true
+				corpus = append(corpus, em)
+			}
+		}
+		p.Note(kind+"_corpus_messages", len(corpus))
+		calls := 0
+		for _, em := range corpus {
+			muts := fuzzBasic(em.Data, rng, e.Pick(250, 1200))
+			for off := 0; off < len(muts); off += 120 {
+				a := newAdapter(kind, 1)
+				a.Init([]uint16{1, 2, 3}, 1, func([]byte, bool, uint16) {})
+				ctx, cancel := context.WithCancel(context.Background())
+				ret := make(chan struct{})
+				if kind == "eddsa" {
+					go func() {
+						defer close(ret)
+						if m := guardedB(func() { a.KeyGen(ctx) }); m != "" {
+							p.Violate("panic/"+kind+".KeyGen-with-hostile-peers", kind+": KeyGen panicked: "+m, nil)
+						}
+					}()
+					time.Sleep(300 * time.Microsecond)
+				} else {
+					close(ret) // ECDSA key generation needs seconds of pre-computation: only the handlers are exercised
+				}
+				for _, m := range muts[off:min(off+120, len(muts))] {
+					for _, from := range []uint16{2, 3} {
+						m := m
+						if msg := guardedB(func() {
+							if _, bc, err := a.ClassifyMsg(m); err == nil {
+								a.OnMsg(append([]byte{}, m...), from, bc)
+							}
+						}); msg != "" {
+							p.Violate("panic/"+kind+".ClassifyMsg-OnMsg", fmt.Sprintf("%s: a mutated %s message made ClassifyMsg/OnMsg panic: %s", kind, em.Phase, msg), map[string]interface{}{"input_hex": fmt.Sprintf("%x", m[:min(300, len(m))])})
+						}
+						calls++
+					}
+				}
+				cancel()
+				select {
+				case <-ret:
+				case <-time.After(20 * time.Second):
+					p.Violate("hang/"+kind+".KeyGen-after-hostile-input", kind+": KeyGen did not return 20 s after its context ended", nil)
+				}
+			}
+		}
+		for _, m := range fuzzBasic(shares[1], rng, e.Pick(400, 3000)) {
+			m := m
+			if msg := guardedB(func() {
+				a := newAdapter(kind, 1)
+				a.Init([]uint16{1, 2, 3}, 1, func([]byte, bool, uint16) {})
+				if a.SetShareData(m) == nil {
+					a.ThresholdPK()
+				}
+			}); msg != "" {
+				p.Violate("panic/"+kind+".SetShareData", kind+": mutated stored data made SetShareData/ThresholdPK panic: "+msg, map[string]interface{}{"input_len": len(m)})
+			}
+			calls++
+		}
+		p.Count("calls", int64(calls))
+		for k := 0; k < calls; k++ {
+			p.Case(fmt.Sprintf("%s#%d", kind, k), true)
+		}
+		p.Sample(map[string]interface{}{"adapter": kind, "corpus_messages": len(corpus), "hostile_inputs": calls})
+	}
+}
+
+func nil2tpk(w *wiring, shares map[uint16][]byte) []byte {
+	a := newAdapter(w.kind, w.ids[0])
+	a.Init(append([]uint16{}, w.ids...), w.thr, func([]byte, bool, uint16) {})
+	if a.SetShareData(shares[w.ids[0]]) != nil {
+		return nil
+	}
+	k, _ := a.ThresholdPK()
+	return k
+}
+
+func fuzzBasic(valid []byte, rng *mrand.Rand, budget int) [][]byte {
+	return fuzz.Basic(valid, 64, rng, budget)
 }
